@@ -120,3 +120,5 @@ u64 ext__ZNKSt7__cxx1112basic_stringIcSt11char_traitsIcESaIcEE12find_last_ofEPKc
   }
   return 0xFFFFFFFFFFFFFFFFULL;
 }
+extern int __verif_tid__ZTISt17bad_function_call;
+void ext__ZSt25__throw_bad_function_callv(void) { __verif_throw_std(__verif_tid__ZTISt17bad_function_call); }
